@@ -167,21 +167,27 @@ def get_unified_diff_hunks(lines, ignore_garbage=False):
                 # Reset for the next hunk. Pull the line numbers and ranges
                 # out of the header, as well as the context. Make sure all
                 # line numbers are 0-based.
-                cur_hunk_orig = {
-                    'first_changed_line': None,
-                    'last_changed_line': None,
-                    'num_lines': int(m.group('orig_num_lines') or '1'),
-                    'num_lines_changed': 0,
-                    'start_line': int(m.group('orig_start')) - 1,
-                }
+                try:
+                    cur_hunk_orig = {
+                        'first_changed_line': None,
+                        'last_changed_line': None,
+                        'num_lines': int(m.group('orig_num_lines') or '1'),
+                        'num_lines_changed': 0,
+                        'start_line': int(m.group('orig_start')) - 1,
+                    }
 
-                cur_hunk_modified = {
-                    'first_changed_line': None,
-                    'last_changed_line': None,
-                    'num_lines': int(m.group('modified_num_lines') or '1'),
-                    'num_lines_changed': 0,
-                    'start_line': int(m.group('modified_start')) - 1,
-                }
+                    cur_hunk_modified = {
+                        'first_changed_line': None,
+                        'last_changed_line': None,
+                        'num_lines': int(m.group('modified_num_lines') or '1'),
+                        'num_lines_changed': 0,
+                        'start_line': int(m.group('modified_start')) - 1,
+                    }
+                except ValueError:
+                    # A line number or count has more digits than int()
+                    # is willing to convert.
+                    raise MalformedHunkError(line=line,
+                                             line_num=line_num)
 
                 cur_hunk_entry = {
                     'context': m.group('context'),
